@@ -151,8 +151,10 @@ class RollAxis(Contract):
     def cases(self, tier):
         for rank in (1, 2, 3) if tier == "quick" else (1, 2, 3, 4):
             for axis in range(rank):
-                for start in range(rank + 1):
-                    for by in ("name", "position"):
+                for start in range(-rank, rank + 1):          # negative insertion positions count from the end, as in NumPy
+                    for by in ("name", "position", "negative-position"):
+                        if by == "negative-position" and start >= 0 and rank > 2:
+                            continue
                         yield {"name": "r%d-axis%d-start%d-%s" % (rank, axis, start, by), "rank": rank, "axis": axis, "start": start, "by": by}
 
     def bound_lengths(self, case):
@@ -163,11 +165,14 @@ class RollAxis(Contract):
 
     def call(self, fn, env):
         c = env["case"]
-        return env["arr"].rollaxis("x%d" % c["axis"] if c["by"] == "name" else c["axis"], c["start"])
+        ax = {"name": "x%d" % c["axis"], "position": c["axis"], "negative-position": c["axis"] - c["rank"]}[c["by"]]
+        return env["arr"].rollaxis(ax, c["start"])
 
     def post(self, S, case, env, result):
         perm = list(range(case["rank"]))
         axis, start = case["axis"], case["start"]
+        if start < 0:
+            start += case["rank"]
         if axis < start:
             start -= 1
         perm.remove(axis)
